@@ -25,6 +25,7 @@ structure Rec where
   hookReq : J
   hookResp : Option J
   hookRaw : String
+  hookRetryAfter : Int := 0
   deriving Inhabited
 
 def Rec.ofJ (j : J) : Rec :=
@@ -32,7 +33,8 @@ def Rec.ofJ (j : J) : Rec :=
     ns := j.getStr "ns", name := j.getStr "name", body := j.getD "body", opts := j.getD "opts",
     code := j.getInt "code", reason := j.getStr "reason", resp := j.getD "resp",
     pre := j.opt "pre", post := j.opt "post", injected := j.getBool "injected",
-    hook := j.getStr "hook", hookReq := j.getD "hookReq", hookResp := j.get? "hookResp", hookRaw := j.getStr "hookRaw" }
+    hook := j.getStr "hook", hookReq := j.getD "hookReq", hookResp := j.get? "hookResp", hookRaw := j.getStr "hookRaw",
+    hookRetryAfter := j.getInt "hookRetryAfter" }
 
 def Rec.isHook (r : Rec) : Bool := r.verb == "hook"
 def Rec.isWrite (r : Rec) : Bool := ["create", "update", "updateStatus", "delete", "patchRemove", "apply"].contains r.verb
